@@ -11,8 +11,9 @@ def streams(ctx, res):
     if not exe:
         return {}
     gc.run_mode(ctx, res, exe, "c10")
-    h = gc.run_mode(ctx, res, exe, "tv")
-    tv = gc.gtv_summary(h)
+    gtv = []
+    gc.run_mode(ctx, res, exe, "tv", collect=("gtv ", gtv))
+    tv = gc.gtv_summary(gtv)
     tv["explanation"] = (
         "NUMERIC SEARCH, NOT A THEOREM: for each parameter set the harness reads the barriers of the live object, computes "
         "D_{Z,sigma,c} with 1536-bit MPFR (explicit sum over |x-c| <= 37.3 sigma + analytic tail bound "
@@ -24,6 +25,8 @@ def streams(ctx, res):
     return {"tv_search": tv,
             "proved": "decode = full comparison = inverse CDF on tables satisfying tableOK; builder model satisfies tableOK; monotone; prefix; induced mass = barrier differences",
             "computed_not_proved": "total variation between the barrier differences and the discrete Gaussian (tv_search)",
+            "derived_parameters": "gpar lines: paramsOK (k = lambda+1+clog2 m exact; (nb-1)/2 >= sigma*sqrt(1+2k*0.693); 2^bits > 2^k (nb-3)) evaluated by the driver on every live object; "
+                                  "proved: budget_covers_all_samples (m*2^-k <= 2^-(lambda+1) for EVERY m), clog2 least, k monotone in m, conditions antitone in k",
             "hypotheses_checked_on_real_tables": "barriersWF, sortedB, nb odd, lastOnes, depth<=wp, tableOK, shapeOK on every gtab line"}
 
 
@@ -38,7 +41,14 @@ PROP = {
              "(gstep: recovered step = barrier), each barrier and its neighbours, both ends of every first-level cell and of every second-level cell "
              "under a flagged first-level cell (8-bit index: all; 16-bit: flagged cells, their neighbours and a random sample), random/all-zero/all-ones strings; "
              "index width 8/16, depth 1/2, several (sigma, lambda, m, centre, constructor) incl. seed-dependent ones; "
-             "gtv: total-variation computation over the parameter grid + random parameter draws; distinct = distinct lines, all non-trivial"),
+             "gtv: total-variation computation over (1) the grid of the statement (sigma 0.3..300, lambda 32..256, centre 0 / 1/2 / -1/4 / 1000.5), each point with "
+             "m = 1, 2^10, 2^20 AND two sample budgets that are not powers of two (2^j±1, 10^j, odd multiples of 2^j, odd numbers: 3 … 2^20-1, rotating with the seed), "
+             "(2) the same space off the round values (sigma 0.37 … 226, lambda 33/47/100/129/255, centres 1/3, -2/7, 1000.001, -12345.678, 0.499999; double / mpfr(double) / "
+             "mpfr(256-bit, not a double) constructors), (3) random draws (sigma log-uniform as k/10^6, k/10 or k/3; any lambda in [32,256]; m a power of two, a neighbour of one, "
+             "a power of ten, an odd multiple, arbitrary or small; centre half-integer / thousandths / integer with large offset / p/q with q in 3,7,11,13,1000003 / quarters / "
+             "dyadic with 10..49 fraction bits); parameters are exact rationals on the line (sigma = fl(sn/sd), centre = fl(cn/cd), m itself); "
+             "gpar: on every object built, _word_precision / _bit_precision / _number_of_barriers against exact-integer consequences of k = lambda+1+ceil(log2 m) "
+             "(Model/GaussParams.lean: tailOK, precOK); distinct = distinct lines, all non-trivial"),
     "trusted_base": props.COMMON_TB + [
         "the barrier table is a parameter of the model: read from the live object with -fno-access-control (its hypotheses are validated on every table seen)",
         "MPFR/GMP (used by the code and, at 1536 bits, by the harness's distance computation); the distance computation itself (harness/gauss.cpp tv_ratio_ppm) is trusted, not verified",
@@ -46,5 +56,7 @@ PROP = {
     ],
     "assumptions": ["barriers well formed and sorted, nb odd, last barrier starts with `depth` all-ones words, depth <= wp (all checked on the real tables)",
                     "outputs fit out_class (the constructor prints a WARNING otherwise); harness uses out_class = int32_t",
-                    "the statistical-distance part is computed on a parameter grid, not proved"],
+                    "the statistical-distance part is computed on a parameter grid, not proved",
+                    "ceil(log(m)/log(2)) in double equals ceil(log2 m) (modelled contract of kOf; exact for m <= 2^28)",
+                    "OPEN finding F8 (known_findings.json): the mpfr_t-centre constructor keeps only 53 bits of the centre; gtv lines of constructor 2 are reported as KNOWN-FINDING"],
 }
